@@ -11,5 +11,8 @@ func main() {
 		xlate.Spec{Pkg: "seq", Recv: "MIDsDistribution", Name: "size"},
 		xlate.Spec{Pkg: "seq", Recv: "MIDsDistribution", Name: "midToIndex"},
 		xlate.Spec{Pkg: "seq", Recv: "MIDsDistribution", Name: "IsIntersecting"},
+		xlate.Spec{Pkg: "util", Recv: "Bitmask", Name: "Set"},
+		xlate.Spec{Pkg: "seq", Recv: "MIDsDistribution", Name: "Add"},
+		xlate.Spec{Pkg: "frac", Recv: "Info", Name: "IsIntersecting"},
 	)
 }
